@@ -380,3 +380,148 @@ func BadSwallowedRename(d *D, files map[string][]byte) error {
 	d.prev = &v
 	return nil
 }
+
+// BadTolerateExist: no removal; EEXIST on the link is "tolerated": the stale
+// link of a crashed call gets published.
+func BadTolerateExist(d *D, files map[string][]byte) error {
+	v := fresh(d)
+	if err := os.MkdirAll(v, 0o755); err != nil {
+		return err
+	}
+	for n, b := range files {
+		if err := os.WriteFile(filepath.Join(v, n), b, 0o600); err != nil {
+			return err
+		}
+	}
+	if err := os.Symlink(v, d.target+".new"); err != nil && !errors.Is(err, os.ErrExist) {
+		return err
+	}
+	if err := os.Rename(d.target+".new", d.target); err != nil {
+		return err
+	}
+	if d.prev != nil {
+		if err := os.RemoveAll(*d.prev); err != nil {
+			return err
+		}
+	}
+	d.prev = &v
+	return nil
+}
+
+// BadTolerateIsExist: same with os.IsExist in a switch.
+func BadTolerateIsExist(d *D, files map[string][]byte) error {
+	v := fresh(d)
+	if err := os.MkdirAll(v, 0o755); err != nil {
+		return err
+	}
+	for n, b := range files {
+		if err := os.WriteFile(filepath.Join(v, n), b, 0o600); err != nil {
+			return err
+		}
+	}
+	err := os.Symlink(v, d.target+".new")
+	switch {
+	case err == nil:
+	case os.IsExist(err):
+		fmt.Println("link exists, tolerate it")
+	default:
+		return err
+	}
+	if err := os.Rename(d.target+".new", d.target); err != nil {
+		return err
+	}
+	if d.prev != nil {
+		if err := os.RemoveAll(*d.prev); err != nil {
+			return err
+		}
+	}
+	d.prev = &v
+	return nil
+}
+
+// BadIgnoreLinkError: no removal and the link error is dropped altogether.
+func BadIgnoreLinkError(d *D, files map[string][]byte) error {
+	v := fresh(d)
+	if err := os.MkdirAll(v, 0o755); err != nil {
+		return err
+	}
+	for n, b := range files {
+		if err := os.WriteFile(filepath.Join(v, n), b, 0o600); err != nil {
+			return err
+		}
+	}
+	_ = os.Symlink(v, d.target+".new")
+	if err := os.Rename(d.target+".new", d.target); err != nil {
+		return err
+	}
+	if d.prev != nil {
+		if err := os.RemoveAll(*d.prev); err != nil {
+			return err
+		}
+	}
+	d.prev = &v
+	return nil
+}
+
+// GoodRecreate: EEXIST handled by removing the leftover and creating the link again.
+func GoodRecreate(d *D, files map[string][]byte) error {
+	v := fresh(d)
+	if err := os.MkdirAll(v, 0o755); err != nil {
+		return err
+	}
+	for n, b := range files {
+		if err := os.WriteFile(filepath.Join(v, n), b, 0o600); err != nil {
+			return err
+		}
+	}
+	tmp := d.target + ".new"
+	if err := os.Symlink(v, tmp); err != nil {
+		if !errors.Is(err, fs.ErrExist) {
+			return err
+		}
+		if err := os.Remove(tmp); err != nil {
+			return err
+		}
+		if err := os.Symlink(v, tmp); err != nil {
+			return err
+		}
+	}
+	if err := os.Rename(tmp, d.target); err != nil {
+		return err
+	}
+	if d.prev != nil {
+		if err := os.RemoveAll(*d.prev); err != nil {
+			return err
+		}
+	}
+	d.prev = &v
+	return nil
+}
+
+// GoodUncheckedLinkAfterRemove: the link error is dropped, but the path was
+// removed first: the rename then fails, nothing wrong is published.
+func GoodUncheckedLinkAfterRemove(d *D, files map[string][]byte) error {
+	v := fresh(d)
+	if err := os.MkdirAll(v, 0o755); err != nil {
+		return err
+	}
+	for n, b := range files {
+		if err := os.WriteFile(filepath.Join(v, n), b, 0o600); err != nil {
+			return err
+		}
+	}
+	if err := os.Remove(d.target + ".new"); err != nil && !errors.Is(err, fs.ErrNotExist) {
+		return err
+	}
+	os.Symlink(v, d.target+".new")
+	if err := os.Rename(d.target+".new", d.target); err != nil {
+		return err
+	}
+	if d.prev != nil {
+		if err := os.RemoveAll(*d.prev); err != nil {
+			return err
+		}
+	}
+	d.prev = &v
+	return nil
+}
